@@ -37,6 +37,7 @@ type Conn struct {
 
 	lineLimitReader *lineLimitReader
 	bdatPipe        *io.PipeWriter
+	bdatDone        chan struct{}    // closed when the BDAT delivery goroutine has returned
 	bdatStatus      *statusCollector // used for BDAT on LMTP
 	dataResult      chan error
 	bytesReceived   int64 // counts total size of chunks when BDAT is used
@@ -167,13 +168,10 @@ func (c *Conn) setSession(session Session) {
 }
 
 func (c *Conn) Close() error {
+	c.abortBdat()
+
 	c.locker.Lock()
 	defer c.locker.Unlock()
-
-	if c.bdatPipe != nil {
-		c.bdatPipe.CloseWithError(ErrDataReset)
-		c.bdatPipe = nil
-	}
 
 	if c.session != nil {
 		c.session.Logout()
@@ -1005,33 +1003,41 @@ func (c *Conn) handleBdat(arg string) {
 		r, c.bdatPipe = io.Pipe()
 
 		c.dataResult = make(chan error, 1)
+		c.bdatDone = make(chan struct{})
+
+		// The goroutine may run (or finish) after the command loop has moved
+		// on to another transaction, so it must not look at the connection
+		// state: everything it needs is captured here.
+		session, recipients := c.Session(), c.recipients
+		status, dataResult, done := c.bdatStatus, c.dataResult, c.bdatDone
 
 		go func() {
+			defer close(done)
 			defer func() {
 				if err := recover(); err != nil {
-					c.handlePanic(err, c.bdatStatus)
+					c.handlePanic(err, status)
 
-					c.dataResult <- errPanic
+					dataResult <- errPanic
 					r.CloseWithError(errPanic)
 				}
 			}()
 
 			var err error
 			if !c.server.LMTP {
-				err = c.Session().Data(r)
+				err = session.Data(r)
 			} else {
-				lmtpSession, ok := c.Session().(LMTPSession)
+				lmtpSession, ok := session.(LMTPSession)
 				if !ok {
-					err = c.Session().Data(r)
-					for _, rcpt := range c.recipients {
-						c.bdatStatus.SetStatus(rcpt, err)
+					err = session.Data(r)
+					for _, rcpt := range recipients {
+						status.SetStatus(rcpt, err)
 					}
 				} else {
-					err = lmtpSession.LMTPData(r, c.bdatStatus)
+					err = lmtpSession.LMTPData(r, status)
 				}
 			}
 
-			c.dataResult <- err
+			dataResult <- err
 			r.CloseWithError(err)
 		}()
 	}
@@ -1302,14 +1308,29 @@ func (c *Conn) readLine() (string, error) {
 	return line, err
 }
 
+// abortBdat makes a pending BDAT delivery fail and waits until the backend has
+// returned from it, so that Reset and Logout are never signalled while the
+// delivery is still running or before it has even started.
+func (c *Conn) abortBdat() {
+	c.locker.Lock()
+	pipe, done := c.bdatPipe, c.bdatDone
+	c.bdatPipe, c.bdatDone = nil, nil
+	c.locker.Unlock()
+
+	if pipe != nil {
+		pipe.CloseWithError(ErrDataReset)
+	}
+	if done != nil {
+		<-done
+	}
+}
+
 func (c *Conn) reset() {
+	c.abortBdat()
+
 	c.locker.Lock()
 	defer c.locker.Unlock()
 
-	if c.bdatPipe != nil {
-		c.bdatPipe.CloseWithError(ErrDataReset)
-		c.bdatPipe = nil
-	}
 	c.bdatStatus = nil
 	c.bytesReceived = 0
 
